@@ -58,7 +58,7 @@ Section Sort.
   Fixpoint insert_by (x : A) (l : list A) : list A :=
     match l with
     | [] => [x]
-    | y :: r => if cmp_ltb (cmp (kf x) (kf y)) then x :: l else y :: insert_by x r
+    | y :: r => if cmp_ltb (cmp (kf y) (kf x)) then y :: insert_by x r else x :: l
     end.
   (* fold from the right so that equal keys keep their original order *)
   Definition sort_by (l : list A) : list A := fold_right insert_by [] l.
